@@ -9,7 +9,7 @@ Models: `MakoModel/Filters/Model.lean`; regenerated tables: `MakoModel/Generated
 sites (`filter=` on `<%def>` / `<%block>` × `buffered=` × `cached=`), the bytes-producing entries and the
 configuration of an expression (own filters × `<%page expression_filter>` × `default_filters`).
 
-Contents (34 theorems):
+Contents (38 theorems):
 * table side conditions, re-decided on every run: `default_escapes_bind`, `xml_class_eq_keys`, `xml_table_good`,
   `markupsafe_table_good`, `xml_entities_standard`, `markupsafe_entities_standard`, `entity_tables_ok`,
   `handler_tables_ok`, `entity_keys_distinct`;
@@ -21,7 +21,9 @@ Contents (34 theorems):
 * entries and configurations (regenerated facts + what follows from them): `def_template_inherits_output_settings`,
   `render_buffer_uses_template_settings`, `every_entry_uses_template_settings`, `expression_filter_sources_complete`,
   `expression_written_through_effective_chain`, `page_filter_reaches_bare_expression`, `markup_kind_facts`,
-  `html_twice_is_once`.
+  `html_twice_is_once`;
+* consequences: `escapes_injective`, `escapes_distribute_over_concatenation`, `no_markup_across_seam`,
+  `trim_idempotent`.
 
 OPEN: nothing – every statement below is the full-strength one; no finding of C10 is recorded as open.
 -/
@@ -366,6 +368,49 @@ theorem html_twice_is_once (v : PyText) :
 
 /-- the hypothesis `f ≠ nName` is satisfiable by the escaping filters -/
 example : "h".toList ≠ Sites.nName ∧ "x".toList ≠ Sites.nName := by decide
+
+/-! ## Consequences: the escapes lose nothing, compose over concatenation, and `trim` is idempotent -/
+
+/-- two different strings never escape to the same text (`x`, `h`, `u`, `entity`): whatever a page shows
+after unescaping identifies the value that was written -/
+theorem escapes_injective (a b : List Char) :
+    (xmlEscape a = xmlEscape b → a = b) ∧ (htmlEscape a = htmlEscape b → a = b) ∧
+    (urlEscape a = urlEscape b → a = b) ∧ (entityEscape a = entityEscape b → a = b) := by
+  refine ⟨fun h => ?_, fun h => ?_, fun h => ?_, fun h => ?_⟩
+  · have := congrArg xmlUnescape h; rwa [xml_roundtrip, xml_roundtrip] at this
+  · have := congrArg htmlUnescape h; rwa [html_roundtrip, html_roundtrip] at this
+  · have := congrArg (fun t => Spec.utf8Decode (Spec.unquotePlus t)) h
+    simp only [url_roundtrip] at this; exact Option.some.inj this
+  · have := congrArg entityUnescape h
+    rw [entity_roundtrip, entity_roundtrip] at this; exact URes.ok.inj this
+
+/-- escaping is character-wise: writing `${a | h}${b | h}` gives the same text as `${a + b | h}`, so where a
+value is split between two expressions does not matter (for `x`, `h`, `u`, `entity`) -/
+theorem escapes_distribute_over_concatenation (a b : List Char) :
+    xmlEscape (a ++ b) = xmlEscape a ++ xmlEscape b ∧ htmlEscape (a ++ b) = htmlEscape a ++ htmlEscape b ∧
+    urlEscape (a ++ b) = urlEscape a ++ urlEscape b ∧ entityEscape (a ++ b) = entityEscape a ++ entityEscape b := by
+  simp [xmlEscape, htmlEscape, urlEscape, utf8Encode, entityEscape, List.flatMap_append]
+
+/-- hence no markup character can be assembled across the seam of two escaped pieces -/
+theorem no_markup_across_seam (a b : List Char) :
+    ∀ c ∈ htmlEscape a ++ htmlEscape b, c ∉ Spec.markup := by
+  rw [← (escapes_distribute_over_concatenation a b).2.1]; exact (html_no_markup (a ++ b)).1
+
+/-- `trim` applied twice is `trim` applied once -/
+theorem trim_idempotent (s : List Char) : trim (trim s) = trim s := by
+  obtain ⟨_, _, _, _, _, hh, hl⟩ := trim_only_edges s
+  generalize trim s = t at hh hl
+  have h1 : t.dropWhile isSpace = t := by
+    cases t with
+    | nil => rfl
+    | cons a r => simp [hh a rfl]
+  have h2 : t.reverse.dropWhile isSpace = t.reverse := by
+    cases hr : t.reverse with
+    | nil => rfl
+    | cons a r =>
+      have : t.getLast? = some a := by rw [List.getLast?_eq_head?_reverse, hr]; rfl
+      simp [hl a this]
+  unfold trim; rw [h1, h2, List.reverse_reverse]
 
 /-! ## Non-vacuity: the hypotheses above are satisfiable by non-trivial instances -/
 
